@@ -1447,11 +1447,32 @@ func (t *XT) coqHVal() (string, bool) {
 		}
 		return "HM " + CoqList(parts), true
 	case "format":
-		st, ok := t.Style.coqStyle()
+		p, ok := t.Items[0].coqHVal()
 		if !ok {
 			return "", false
 		}
-		p, ok := t.Items[0].coqHVal()
+		if t.Style != nil && t.Style.Kind == "closure" && t.Style.S != failingClosure {
+			// a closure style that succeeds: its result for the wrapped value is handed to the model as data
+			inner := t.Items[0]
+			r := ""
+			switch t.Style.S {
+			case "x->x":
+				r = p
+			case "x->\"<b>\"+string(x)+\"</b>\"":
+				if inner.Kind != "str" && inner.Kind != "int" && inner.Kind != "bool" {
+					return "", false
+				}
+				r = "HS " + CoqStr("<b>"+scalarString(inner.Build())+"</b>")
+			case "x->[x,\"&\"]":
+				r = "HL [" + p + "; HS " + CoqStr("&") + "]"
+			case "x->{v:x}":
+				r = "HM [(" + CoqStr("v") + ", " + p + ")]"
+			default:
+				return "", false
+			}
+			return fmt.Sprintf("HFmtClo %s %d (%s) (%s)", CoqBool(t.Cell), t.ColSpan, r, p), true
+		}
+		st, ok := t.Style.coqStyle()
 		if !ok {
 			return "", false
 		}
